@@ -96,6 +96,16 @@ CHECKS = {
             'Every templated file and its hand-substituted twin are parsed and tabulated by the same implementation (ConfigParser lists, output bytes, potable); any leak of a variable into another section or failure to resolve a placeholder shows as a difference.',
             'A variable is never named like a key of a section in which it is used (configparser resolves ${NAME} in the current section first; the statement speaks of keys of OTHER sections).',
             'DESIGN.md 4/C15'),
+    'C16': (E1, 'exploration',
+            'exhaustive application of a catalogue of ~90 malformation operators at every applicable position of 8 well-formed base models, each mutant run on the real code through Configuration.read + write and through potable main(); plus the converse over base models, all shipped example files and every documented target spelling',
+            'Every single mutation of the catalogue is executed; the outcome must be a ConfigurationException subclass / exit 2 with "configuration error - " and no non-empty table; any other exception class (signature: type + innermost repository frame), an accepted malformed model, or a refused well-formed one is a violation.',
+            'The catalogue defines "structurally malformed" (debatable edits are excluded and listed in DESIGN.md); single mutations only.',
+            'DESIGN.md 4/C16'),
+    'C20': (E1, 'exploration',
+            'exhaustive application of 20 duplication operators (identical key, reversed pair in both orders of appearance, whitespace variants, other parameter names/arity, section-name spellings, table-vs-formula and table-vs-built-in name clashes, repeated sections) to every entry of 4 base models at 3 positions, on the real code through Configuration.read and potable',
+            'Every duplicate must be refused with a configuration error; acceptance (with a report of what was written) or another exception class is a violation; un-duplicated controls must be accepted.',
+            'pymath.* names and ADP dipole/quadrupole sections are outside the statement list.',
+            'DESIGN.md 4/C20'),
 }
 
 NOT_YET = 'check not built yet in this revision of /verif (bounded exhaustive exploration applies; see DESIGN.md section 4)'
